@@ -29,7 +29,7 @@ Sig(k, t) == <<"Sig", k, t>>
 
 MsgCases ==
   [kind : {"msg"}, signer : Key, sctx : SCtx, sht : GoodHT, sbody : Body,
-   claimed : Key \cup {"garbage", "empty"}, cbody : Body \cup {"empty"}, cht : HT,
+   claimed : Key \cup {"garbage", "empty", "trailing"}, cbody : Body \cup {"empty"}, cht : HT,   \* trailing: the signer's id followed by extra bytes
    sig : {"intact", "flipped", "empty", "trunc", "extended"}, pk : {"none", "ok", "garbage"}, vctx : Ctx]
 
 SigCases ==
